@@ -729,5 +729,91 @@ class Schedules(Part):
         return res
 
 
+class GeneratedSaltTrees(Part):
+    name = "generated_salt_over_a_directory_with_failing_files"
+    desc = ("no salt given, a directory of three files of which none / the first / the middle / the last fails (output path "
+            "occupied by a directory, undecodable input), both walk orders, anonymize_files and main: one reported string "
+            "reproduces every file that was written")
+
+    NAMES = ["a.cfg", "m/b.cfg", "z/c.cfg"]
+    BODY = "hostname seattle-core\nip address 10.1.2.3 2001:db8::77\nrouter bgp 65001\nset x secret \"$9$abc!defghij\"\n"
+
+    def __init__(self, tier, seed):
+        self.tier, self.seed = tier, seed
+
+    def cases(self):
+        return [{"fail": f, "kind": k, "entry": e, "reverse": r}
+                for f in (None, 0, 1, 2) for k in (("outdir", "bytes") if f is not None else ("none",))
+                for e in ("anonymize_files", "main") for r in (False, True)]
+
+    def _run(self, case, root, tag, salt):
+        from netconan.anonymize_files import anonymize_files
+        from netconan.netconan import main
+
+        ind, outd = os.path.join(root, tag, "in"), os.path.join(root, tag, "out")
+        files = {n: (self.BODY + "! file %s\n" % n) for n in self.NAMES}
+        if case["kind"] == "bytes":
+            files[self.NAMES[case["fail"]]] = b"hostname seattle-core\n\xff\xfe\xfa broken\nip address 10.1.2.3\n"
+        seams.write_tree(ind, files)
+        os.makedirs(outd)
+        if case["kind"] == "outdir":
+            os.makedirs(os.path.join(outd, self.NAMES[case["fail"]]))
+        with seams.capture_logs(30) as recs, seams.capture_stdio(), seams.walk_order(lambda n: n, reverse=case["reverse"]):
+            try:
+                if case["entry"] == "anonymize_files":
+                    anonymize_files(ind, outd, True, True, salt=salt, sensitive_words=["seattle"], as_numbers=["65001"])
+                else:
+                    main(["-i", ind, "-o", outd, "-p", "-a", "-w", "seattle", "-n", "65001"] + (["-s", salt] if salt is not None else []))
+            except SystemExit:
+                pass
+        seams.restore_globals()
+        return seams.read_tree(outd), list(recs)
+
+    def run(self, case):
+        import random
+        import shutil
+
+        res = Res()
+        root = seams.scratch_dir("c13t")
+        real_choice = random.choice
+        calls = {"n": 0}
+
+        def scripted(seq):
+            calls["n"] += 1
+            return seq[(calls["n"] * 11 + 3) % len(seq)]
+
+        try:
+            random.choice = scripted
+            try:
+                out1, recs = self._run(case, root, "first", None)
+            finally:
+                random.choice = real_choice
+            res.evals += 1
+            written = {k: v for k, v in out1.items() if v is not None}
+            res.count("files_written", len(written))
+            cands = []
+            for lvl, msg, _ in recs:
+                cands += salt_candidates(msg)
+            cands = list(dict.fromkeys(x for x in cands if x))
+            ok = None
+            for k, cand in enumerate(cands[:80]):
+                out2, _ = self._run(case, root, "again%d" % k, cand)
+                shutil.rmtree(os.path.join(root, "again%d" % k), ignore_errors=True)
+                if out2 == out1:
+                    ok = cand
+                    break
+            res.nt(tuple(sorted((k, str(v)) for k, v in case.items())))
+            res.out((ok is not None, len(written)))
+            if ok is None and written:
+                res.violation("generated-salt-not-reported-or-not-reproducing|directory",
+                              "%r: WARNING+ records %r; none of %d candidate strings reproduces all %d written files" % (
+                                  case, [r[1][:70] for r in recs][:4], len(cands), len(written)), case)
+        finally:
+            random.choice = real_choice
+            shutil.rmtree(root, ignore_errors=True)
+        res.samples.append(case)
+        return res
+
+
 def parts(tier, seed):
-    return [Repetition(tier, seed), HashSeeds(tier, seed), History(tier, seed), GeneratedSalt(tier, seed), Leftovers(tier, seed), Clock(tier, seed), Schedules(tier, seed)]
+    return [Repetition(tier, seed), HashSeeds(tier, seed), History(tier, seed), GeneratedSalt(tier, seed), Leftovers(tier, seed), Clock(tier, seed), Schedules(tier, seed), GeneratedSaltTrees(tier, seed)]
